@@ -265,6 +265,10 @@ func runC15(c c15Case, ev *Ev) error {
 		}
 		target = model.Op{Kind: "mod", Peer: 0, Seq: 300, Sess: 0, Note: "any",
 			UpdFARs: []model.FAR{{ID: 2, Action: model.ActFORW, HasFwd: true, DstIf: model.IfAccess, HasOHC: true, TEID: 7777, Peer: np}}}
+	case "modqer":
+		// an AMBR / MBR change: the meter cells of both QERs are reprogrammed, then the entries rewritten
+		target = model.Op{Kind: "mod", Peer: 0, Seq: 300, Sess: 0, Note: "any",
+			UpdQERs: []model.QER{{ID: 1, QFI: 9, MBRUL: 3000, MBRDL: 3000}, {ID: 2, QFI: 9, MBRUL: 70000, MBRDL: 70000}}}
 	case "del":
 		target = model.Op{Kind: "del", Peer: 0, Seq: 300, Sess: 0, Note: "any"}
 	}
@@ -287,7 +291,7 @@ func runC15(c c15Case, ev *Ev) error {
 	for _, w := range r.P4.LogSince(from) {
 		injected = injected || w.Failed != ""
 	}
-	if injected && o.Accepted && (c.Target == "est" || c.Target == "mod") {
+	if injected && o.Accepted && (c.Target == "est" || c.Target == "mod" || c.Target == "modqer") {
 		return fmt.Errorf("%s whose datapath write %d failed with %s was answered with acceptance\n%s", c.Target, c.K, c.Code, p4Diag(r, from))
 	}
 	if ev != nil {
@@ -350,17 +354,17 @@ var c15Codes = []string{"UNAVAILABLE", "INVALID_ARGUMENT", "RESOURCE_EXHAUSTED"}
 func TestC15Enum(t *testing.T) {
 	ev := newEv("C15")
 	defer ev.write()
-	ev.Rule = "fault enumeration on a fresh UP4 agent whose switch declares 9-cell meters and 16-cell counters: two sessions (application + session QER, shared gNB and filter; in a third of the scenarios the downlink PDR of the first session has an application filter nothing else uses), then the target request {establishment (sharing / not sharing peer and filter), Update FAR modification (same / new peer), deletion} with the k-th Write RPC failing, for every k up to the number of Writes of the fault-free run and each code {gRPC UNAVAILABLE, UNKNOWN+INVALID_ARGUMENT, UNKNOWN+RESOURCE_EXHAUSTED}, then 4 (quick) / 7 (thorough) further sessions; non-trivial = the failing write is not the first of the request"
+	ev.Rule = "fault enumeration on a fresh UP4 agent whose switch declares 9-cell meters and 16-cell counters: two sessions (application + session QER, shared gNB and filter; in a third of the scenarios the downlink PDR of the first session has an application filter nothing else uses), then the target request {establishment (sharing / not sharing peer and filter), Update FAR modification (same / new peer), Update QER modification (new rates for the application and the session QER), deletion} with the k-th Write RPC failing, for every k up to the number of Writes of the fault-free run and each code {gRPC UNAVAILABLE, UNKNOWN+INVALID_ARGUMENT, UNKNOWN+RESOURCE_EXHAUSTED}, then 4 (quick) / 7 (thorough) further sessions; non-trivial = the failing write is not the first of the request"
 	ev.Assume = []string{"ALREADY_EXISTS is tolerated by documented design and not injected", "identifier leaks after a failed request are C05's business; C15 asserts exclusivity, no hand-out while in use (also in its precursor form, hook: no identifier referenced by an entry of a live session sits in its free pool), no migration (a pool never exceeds its start-up size) and rejection"}
 	codes := c15Codes
 	if !thorough() {
 		codes = c15Codes[:2]
 	}
 	n := 0
-	for _, target := range []string{"est", "mod", "del"} {
+	for _, target := range []string{"est", "mod", "modqer", "del"} {
 		for _, variant := range []struct{ shared, asym bool }{{true, false}, {false, false}, {true, true}} {
 			shared, asym := variant.shared, variant.asym
-			if target == "del" && !shared {
+			if (target == "del" || target == "modqer") && !shared {
 				continue
 			}
 			// fault-free run learns W
@@ -398,7 +402,7 @@ func TestC15Multi(t *testing.T) {
 	ev := newEv("C15")
 	ev.Rule = "random multi-fault plans (1-3 failing Writes with drawn codes) on the same scenario family"
 	runProp(t, ev, "enum", true, func(rt *rapid.T) c15Case {
-		c := c15Case{Target: rapid.SampledFrom([]string{"est", "mod", "del"}).Draw(rt, "target"), Shared: rapid.Bool().Draw(rt, "shared"), After: rapid.IntRange(2, 6).Draw(rt, "after"), Multi: map[int]string{}, DelOther: rapid.Bool().Draw(rt, "delother"), Asym: rapid.Bool().Draw(rt, "asym")}
+		c := c15Case{Target: rapid.SampledFrom([]string{"est", "mod", "modqer", "del"}).Draw(rt, "target"), Shared: rapid.Bool().Draw(rt, "shared"), After: rapid.IntRange(2, 6).Draw(rt, "after"), Multi: map[int]string{}, DelOther: rapid.Bool().Draw(rt, "delother"), Asym: rapid.Bool().Draw(rt, "asym")}
 		for i := 0; i < rapid.IntRange(1, 3).Draw(rt, "nf"); i++ {
 			c.Multi[rapid.IntRange(1, 9).Draw(rt, "k")] = rapid.SampledFrom(c15Codes).Draw(rt, "code")
 		}
